@@ -121,8 +121,31 @@ func solveOne(o *Obligation, dir string, idx int, timeoutS int, all bool) *Solve
 	}
 	got := 0
 	res.Status = "unknown"
+	// An obligation that is still open after a few seconds is also attacked by
+	// case analysis over its merge points, concurrently (quick tier only; the
+	// thorough tier wants every solver's own answer first).
+	var early <-chan time.Time
+	earlyCh := make(chan *SolveResult, 1)
+	if !all && !o.Vacuity && len(o.Merges) > 0 {
+		early = time.After(5 * time.Second)
+	}
 	for got < launched {
 		select {
+		case <-early:
+			early = nil
+			go func() {
+				r2 := &SolveResult{Status: "unknown"}
+				splitSolve(o, r2, dir, idx, timeoutS, avail)
+				earlyCh <- r2
+			}()
+		case r2 := <-earlyCh:
+			if r2.Status == "unsat" {
+				cancel()
+				res.Status, res.Solver = "unsat", r2.Solver
+				res.Secs = time.Since(start).Seconds()
+				go func() { wg.Wait() }()
+				return res
+			}
 		case a := <-ch:
 			got++
 			res.PerSolver[a.solver] = a.status
